@@ -20,7 +20,15 @@ type SpecMetric struct {
 	Values    []string // specification order; for optional metrics Values[0] is the not-defined value
 }
 
+type SpecWeight struct {
+	Name   string
+	Metric string
+	W      map[string]string
+}
+
 type Spec struct {
+	Weights  []SpecWeight
+	Modifies [][2]string
 	Version string
 	Type    string
 	Header  string
@@ -65,6 +73,14 @@ func loadSpec(ver string) (*Spec, error) {
 		case "group":
 			s.Groups[f[1]] = f[2:]
 			s.GOrder = append(s.GOrder, f[1])
+		case "weight":
+			sw := SpecWeight{Name: f[1], Metric: f[2], W: map[string]string{}}
+			for i := 3; i+1 < len(f); i += 2 {
+				sw.W[f[i]] = f[i+1]
+			}
+			s.Weights = append(s.Weights, sw)
+		case "modifies":
+			s.Modifies = append(s.Modifies, [2]string{f[1], f[2]})
 		case "metric":
 			s.Metrics = append(s.Metrics, SpecMetric{Name: f[1], Mandatory: f[2] == "mandatory", Values: f[3:]})
 		default:
@@ -308,6 +324,45 @@ func (w *World) PreludeFor(pkg string) (string, []*Oblig, error) {
 			}
 			fmt.Fprintf(&body, "(define-fun wf%s ((c %s)) Bool (and %s))\n", V, T, strings.Join(cs, " "))
 			preludeSorts["wf"+V] = SBool
+		}
+		// value predicates, weights, effective values
+		for _, m := range spec.Metrics {
+			for k, val := range byMetric[m.Name].Codes {
+				fmt.Fprintf(&body, "(define-fun isv%s_%s_%s ((code BV8)) Bool (= code #x%02x))\n", V, m.Name, val, k)
+				preludeSorts[fmt.Sprintf("isv%s_%s_%s", V, m.Name, val)] = SBool
+			}
+		}
+		realLit := func(x string) string {
+			if !strings.Contains(x, ".") {
+				x += ".0"
+			}
+			if strings.HasPrefix(x, "-") {
+				return "(- " + x[1:] + ")"
+			}
+			return x
+		}
+		for _, sw := range spec.Weights {
+			codes := byMetric[sw.Metric].Codes
+			e := "0.0"
+			okT := True
+			for k := len(codes) - 1; k >= 0; k-- {
+				wv, ok := sw.W[codes[k]]
+				if !ok {
+					okT = False
+					wv = "0"
+				}
+				e = fmt.Sprintf("(ite (= code #x%02x) %s %s)", k, realLit(wv), e)
+			}
+			obl = append(obl, &Oblig{Name: fmt.Sprintf("gocvss%s/repr/weight_table_covers_codes/%s", pkg, sw.Name), Kind: "repr", Cond: okT})
+			fmt.Fprintf(&body, "(define-fun w%s_%s ((code BV8)) Real %s)\n", V, sw.Name, e)
+			preludeSorts[fmt.Sprintf("w%s_%s", V, sw.Name)] = SReal
+		}
+		for _, md := range spec.Modifies {
+			mc, bc := byMetric[md[0]].Codes, byMetric[md[1]].Codes
+			okT := BoolLit(len(mc) >= 1 && strings.Join(mc[1:], ",") == strings.Join(bc, ",") || (len(mc) > len(bc)+1 && strings.Join(mc[1:len(bc)+1], ",") == strings.Join(bc, ",")))
+			obl = append(obl, &Oblig{Name: fmt.Sprintf("gocvss%s/repr/modified_codes_align_with_base/%s", pkg, md[0]), Kind: "repr", Cond: okT})
+			fmt.Fprintf(&body, "(define-fun eff%s_%s ((c %s)) BV8 (ite (= (f%s_%s c) #x00) (f%s_%s c) (bvsub (f%s_%s c) #x01)))\n", V, md[1], T, V, md[0], V, md[1], V, md[0])
+			preludeSorts[fmt.Sprintf("eff%s_%s", V, md[1])] = SBV8
 		}
 		// view equality
 		{
